@@ -48,7 +48,7 @@ CoreOps(ts) ==
   \cup {[name |-> nm, c |-> c, form |-> f, w |-> w] :
       nm \in {"get_mut", "index_mut"}, c \in Classes, f \in {0, 1}, w \in Writes}
   \cup {[name |-> "retain", keep |-> K, w |-> w] : K \in SUBSET Classes, w \in Writes}
-  \cup {[name |-> "clear"]}
+  \cup {[name |-> "clear"], [name |-> "drop"]}
   \cup {[name |-> "drain", n |-> n, end |-> e] : n \in 0..Len(ts), e \in {"drop", "forget"}}
 
 UncheckedOps(ts) ==
@@ -113,7 +113,7 @@ SetCoreOps(ts) ==
   \cup {[name |-> nm, c |-> c, form |-> f] :
       nm \in {"s_contains", "s_get", "s_remove", "s_take"}, c \in Classes, f \in {0, 1}}
   \cup {[name |-> "s_retain", keep |-> K] : K \in SUBSET Classes}
-  \cup {[name |-> "s_clear"]}
+  \cup {[name |-> "s_clear"], [name |-> "s_drop"]}
   \cup {[name |-> "s_drain", n |-> n, end |-> e] : n \in 0..Len(ts), e \in {"drop", "forget"}}
   \cup {[name |-> "s_iter", n |-> n] : n \in 0..Len(ts)}
   \cup {[name |-> "s_into_iter", n |-> n, end |-> e] : n \in 0..Len(ts), e \in {"drop", "forget"}}
